@@ -417,10 +417,36 @@ def specKeys (rec : W σ → Node → Key → Option Val → List Val → List K
       | some (.brk w) => some (.brk w)
       | some (.done w es) => some (.done w (match e with | some c => (k, c) :: es | none => es))
 
-/-- replace the listed attributes (documented: the result is a copy of the node with the
-edited children) -/
+/-- the attribute `k` now holds `c` -/
+def setAttr (fs : List (String × Child)) (k : String) (c : Child) : List (String × Child) :=
+  match fs with
+  | [] => []
+  | (k', c') :: r => if k' = k then (k', c) :: r else (k', c') :: setAttr r k c
+
+/-- replace the listed attributes, in the order the children were visited (documented: the result
+is a copy of the node with the edited children) -/
 def withFields (fs : List (String × Child)) (es : List (String × Child)) : List (String × Child) :=
-  fs.map (fun (k, c) => match es.lookup k with | some c' => (k, c') | none => (k, c))
+  es.foldl (fun fs e => setAttr fs e.1 e.2) fs
+
+/-- the children of `m` in key order, then `leave` (`replaced`: `m` is a replacement returned by
+`enter`, so the position changes even if nothing below does) -/
+def specBody (vk : String → List String) (v : Visitor σ)
+    (rec : W σ → Node → Key → Option Val → List Val → List Key → Option (Res σ Slot))
+    (key : Key) (parent : Option Val) (ancestors : List Val) (path : List Key)
+    (w : W σ) (m : Node) (replaced : Bool) : Option (Res σ Slot) :=
+  match specKeys rec m (ancestors ++ parent.toList) path w (vk m.kind) with
+  | none => none
+  | some (.brk w) => some (.brk w)
+  | some (.done w es) =>
+    let m' := if es.isEmpty then m else Node.mk m.kind 0 m.payload (withFields m.fields es)
+    let (a, s) := v w.s ⟨.leave, m', key, parent, path, ancestors⟩
+    let w := { w with s := s, iters := w.iters + 1 }
+    match a with
+    | .brk => some (.brk w)
+    | .remove => some (.done { w with edited := true } .gone)
+    | .replace r => some (.done { w with edited := true } (.put r))
+    | .idle | .skip =>
+      some (.done w (if !es.isEmpty then .put m' else if replaced then .put m else .keep))
 
 /-- `enter`, then the children in key order, then `leave` — `d` bounds the nesting depth of the
 traversal (`none` = bound exceeded; replacement nodes are traversed too, so no bound can be read
@@ -431,26 +457,12 @@ def specNode (vk : String → List String) (v : Visitor σ) :
   | d + 1, w, n, key, parent, ancestors, path =>
     let (a, s) := v w.s ⟨.enter, n, key, parent, path, ancestors⟩
     let w := { w with s := s, iters := w.iters + 1 }
-    let body (w : W σ) (m : Node) (replaced : Bool) : Option (Res σ Slot) :=
-      match specKeys (specNode vk v d) m (ancestors ++ parent.toList) path w (vk m.kind) with
-      | none => none
-      | some (.brk w) => some (.brk w)
-      | some (.done w es) =>
-        let m' := if es.isEmpty then m else Node.mk m.kind 0 m.payload (withFields m.fields es)
-        let (a, s) := v w.s ⟨.leave, m', key, parent, path, ancestors⟩
-        let w := { w with s := s, iters := w.iters + 1 }
-        match a with
-        | .brk => some (.brk w)
-        | .remove => some (.done { w with edited := true } .gone)
-        | .replace r => some (.done { w with edited := true } (.put r))
-        | .idle | .skip =>
-          some (.done w (if !es.isEmpty then .put m' else if replaced then .put m else .keep))
     match a with
     | .brk => some (.brk w)
     | .skip => some (.done w .keep)
     | .remove => some (.done { w with edited := true } .gone)
-    | .idle => body w n false
-    | .replace r => body { w with edited := true } r true
+    | .idle => specBody vk v (specNode vk v d) key parent ancestors path w n false
+    | .replace r => specBody vk v (specNode vk v d) key parent ancestors path { w with edited := true } r true
 
 /-- What `visit(root, v)` must produce. `result`: `some (some x)` — the returned value is `x`
 (`root` itself when nothing was edited), `some none` — `None` (the root was removed), `none` —
